@@ -366,3 +366,24 @@ def write_defs(work, defs):
     with open(p, "w") as fh:
         json.dump(defs, fh)
     return p
+
+
+# ---------------------------------------------------------------------------------------
+# self-check of the reference semantics (spec/CodecMC.tla)
+# ---------------------------------------------------------------------------------------
+CODECMC_CFG = ("INIT Init\nNEXT Next\nINVARIANT SizeIsLen\nINVARIANT ParseEnc\nINVARIANT RoundTrip\nINVARIANT OrderFree\n"
+               "INVARIANT PrefixBad\nINVARIANT TrailFree\nCHECK_DEADLOCK FALSE\n")
+
+
+def codec_selfcheck(work, defs, timeout=1500):
+    """TLC model-checks the theorems of the oracle on the given universe; a counterexample is
+    an error in the specification (machinery failure, exit 2), never a verdict on the code"""
+    defs_path = write_defs(work, defs)
+    d = work.sub("codecmc")
+    out, st = tlc(d, "CodecMC", CODECMC_CFG, env={"VERIF_DEFS": defs_path}, workers=8, timeout=timeout, heap="8g")
+    if st.get("exit") != 0 or "No error has been found" not in out:
+        keep = os.path.join(VERIF, "work", "last-codecmc-failure.txt")
+        with open(keep, "w") as fh:
+            fh.write(out[-30000:])
+        raise MachineryError("CodecMC: a theorem of the reference semantics fails (specification error); see " + keep)
+    return st
